@@ -15,13 +15,14 @@
 (***************************************************************************)
 EXTENDS Buffer, TLC, Json
 
-CONSTANTS MaxOps, Alpha, MaxPay, ByteArgs, RuneArgs, RawFrags, EmitOn
+CONSTANTS MaxOps, Alpha, MaxPay, ByteArgs, RuneArgs, RawFrags, Spicy, EmitOn
 
 VARIABLES st, dStrip, dSafe, okUTF, hist
 vars == <<st, dStrip, dSafe, okUTF, hist>>
 view == <<st, dStrip, dSafe, okUTF, Len(hist)>>
 
-Payloads == UNION {[1..n -> Alpha] : n \in 0..MaxPay}
+\* every payload up to MaxPay bytes, plus longer ones that force a rewrite AND end in a truncated marker
+Payloads == UNION {[1..n -> Alpha] : n \in 0..MaxPay} \cup Spicy
 
 Init == st = BInit /\ dStrip = <<>> /\ dSafe = <<>> /\ okUTF = TRUE /\ hist = <<>>
 
@@ -89,6 +90,8 @@ QByteArgs == {97, 10, 226, 186}
 TByteArgs == {97, 10, 63, 226, 128, 185, 186, 255}
 QRuneArgs == {97, 8249, 55296}
 TRuneArgs == {97, 10, 8249, 8250, 215, 128512, 55296, -1, 1114112}
+QSpicy == {<<NL, 226, 128>>, StartM \o <<226, 128>>, <<97, NL, 226>>}
+TSpicy == QSpicy \cup {EndM \o <<226>>, <<NL, NL, 226, 128>>, <<226, 128, NL>>, StartM \o <<NL>>, <<195, NL>>}
 QRawFrags == {<<>>, <<97>>, StartM \o <<97>> \o EndM, <<10>>}
 TRawFrags == QRawFrags \cup {RedactedM, <<97>> \o StartM \o <<63>> \o EndM \o <<10>>, StartM \o EndM}
 =============================================================================
